@@ -11,6 +11,7 @@ use crate::scenario::{Entry, Scenario, UserOp};
 use crate::world::{EvKind, RunRecord};
 
 
+pub mod c04;
 pub mod c18;
 
 pub fn v(prop: &'static str, clause: &'static str, detail: String) -> Violation {
